@@ -34,6 +34,20 @@ def clone_problems(facts, types=None):
     return bad
 
 
+def eq_problems(facts, types=None):
+    """Tree types whose `==` is not the derived one: the evaluators compare tree values structurally (what `derive(PartialEq)`
+    does); a hand-written `eq` may identify different values (`Form == Newline`) wherever the code compares with `==`/`!=`."""
+    bad = []
+    for tname in types or AST_TYPES:
+        d_ = _local_type(facts, tname)
+        if d_ is None:
+            continue
+        man = _manual(facts, tname, ("PartialEq", "Eq"))
+        if man:
+            bad.append("%s (hand-written %s)" % (tname, man))
+    return bad
+
+
 def key_types(facts):
     """{type name: {"where": [field/alias it keys], "derived": [...], "manual": [...]}} for crate types inside the key position of a
     HashMap / HashSet / BTreeMap / BTreeSet field, local or alias anywhere in the crate's struct definitions."""
